@@ -207,7 +207,11 @@ def _coincidence(rng, work, aligned=True):
     """value coincidences: two independent quantities that happen to be equal or related"""
     rx, ry, rz = rng.choice(work), rng.choice(work), rng.choice(work)
     off = rng.randrange(0, 60, 4)
-    k = rng.randrange(9)
+    k = rng.randrange(10)
+    if k == 9:
+        # the very same self-dependent instruction two or three times in a row, or with one instruction in between
+        i_ = rng.choice([{"m": "addi", "rd": rx, "rs1": rx, "imm": rng.choice([1, -1, 3])}, {"m": "add", "rd": rx, "rs1": rx, "rs2": rx}, {"m": "slli", "rd": rx, "rs1": rx, "imm": 1}, {"m": "lw", "rd": rx, "rs1": rx, "imm": 0} if False else {"m": "xori", "rd": rx, "rs1": rx, "imm": 5}])
+        return rng.choice([[i_, dict(i_), dict(i_)], [i_, dict(i_)], [i_, {"m": "addi", "rd": ry, "rs1": 0, "imm": 7}, dict(i_)], [i_, {"m": "addi", "rd": 0, "rs1": 0, "imm": 0}, {"m": "addi", "rd": 0, "rs1": 0, "imm": 0}, dict(i_)]])
     if k == 0:
         # a word that holds its own address, read back and used as a pointer
         return [{"m": "addi", "rd": rx, "rs1": 31, "imm": off}, {"m": "sw", "rs1": 31, "rs2": rx, "imm": off}, {"m": "lw", "rd": ry, "rs1": rx, "imm": 0}, {"m": "lw", "rd": rz, "rs1": ry, "imm": 0}]
